@@ -502,12 +502,20 @@ func ZIncr(key string, v Value, delta float64) *Op {
 		Run: func(r R, x *Exec, op *Op) Res { f, err := r.ZSet().Incr(key, v.Go, delta); return valOrErr(F(f), err) }}
 }
 
+// aggTok is the aggregate the model is told: leaving the builder's aggregate unset means sum.
+func aggTok(agg string) string {
+	if agg == "default" {
+		return "sum"
+	}
+	return agg
+}
+
 func ZAlg(inter bool, agg string, keys ...string) *Op {
 	name := "ZUnion"
 	if inter {
 		name = "ZInter"
 	}
-	return &Op{Name: name + "-" + agg, Tok: fmt.Sprintf("ZAlg %s %s %s", B(inter), agg, TokStrs(keys)),
+	return &Op{Name: name + "-" + agg, Tok: fmt.Sprintf("ZAlg %s %s %s", B(inter), aggTok(agg), TokStrs(keys)),
 		Run: func(r R, x *Exec, op *Op) Res {
 			if inter {
 				c := r.ZSet().InterWith(keys...)
@@ -516,8 +524,9 @@ func ZAlg(inter bool, agg string, keys ...string) *Op {
 					c = c.Min()
 				case "max":
 					c = c.Max()
-				default:
+				case "sum":
 					c = c.Sum()
+				default: // "default": no aggregate call - the documented default is the sum
 				}
 				items, err := c.Run()
 				if err != nil {
@@ -535,8 +544,9 @@ func ZAlg(inter bool, agg string, keys ...string) *Op {
 				c = c.Min()
 			case "max":
 				c = c.Max()
-			default:
+			case "sum":
 				c = c.Sum()
+			default: // "default": no aggregate call - the documented default is the sum
 			}
 			items, err := c.Run()
 			if err != nil {
@@ -554,7 +564,7 @@ func ZStore(inter bool, agg string, dest string, keys ...string) *Op {
 	if inter {
 		name = "ZInterStore"
 	}
-	return &Op{Name: name + "-" + agg, Tok: fmt.Sprintf("ZStore %s %s %s %s", B(inter), agg, SS(dest), TokStrs(keys)), Write: true,
+	return &Op{Name: name + "-" + agg, Tok: fmt.Sprintf("ZStore %s %s %s %s", B(inter), aggTok(agg), SS(dest), TokStrs(keys)), Write: true,
 		Run: func(r R, x *Exec, op *Op) Res {
 			var n int
 			var err error
@@ -565,8 +575,9 @@ func ZStore(inter bool, agg string, dest string, keys ...string) *Op {
 					c = c.Min()
 				case "max":
 					c = c.Max()
-				default:
+				case "sum":
 					c = c.Sum()
+				default: // "default": no aggregate call - the documented default is the sum
 				}
 				n, err = c.Store()
 			} else {
@@ -576,8 +587,9 @@ func ZStore(inter bool, agg string, dest string, keys ...string) *Op {
 					c = c.Min()
 				case "max":
 					c = c.Max()
-				default:
+				case "sum":
 					c = c.Sum()
+				default: // "default": no aggregate call - the documented default is the sum
 				}
 				n, err = c.Store()
 			}
@@ -594,6 +606,8 @@ func ZRangeRank(key string, start, stop int, desc bool) *Op {
 			c := r.ZSet().RangeWith(key).ByRank(start, stop)
 			if desc {
 				c = c.Desc()
+			} else if start%2 == 0 {
+				c = c.Asc() // the default direction, spelled out
 			}
 			items, err := c.Run()
 			if err != nil {
